@@ -89,9 +89,10 @@ impl Selection {
         }
     }
 
-    fn tx<F>(cursor: &mut WriteCursor, f: F) -> Result<(), scursor::WriteError>
+    fn tx<F, E>(cursor: &mut WriteCursor, f: F) -> Result<(), E>
     where
-        F: FnOnce(&mut WriteCursor) -> Result<(), scursor::WriteError>,
+        F: FnOnce(&mut WriteCursor) -> Result<(), E>,
+        E: From<scursor::WriteError>,
     {
         let start = cursor.position();
         let res = f(cursor);
@@ -143,8 +144,9 @@ impl Selection {
             } else {
                 // check if it exists in the user map
                 if let Ok(attr) = map.get(set, var) {
-                    let mut writer = HeaderWriter::new(cursor);
-                    if let Err(err) = writer.write_attribute(attr) {
+                    // a failed write must not leave a partial attribute in the response
+                    let res = Self::tx(cursor, |cur| HeaderWriter::new(cur).write_attribute(attr));
+                    if let Err(err) = res {
                         match err {
                             AttrWriteError::Cursor => return false, // out of space
                             AttrWriteError::BadAttribute(err) => {
